@@ -277,6 +277,7 @@ package ackhandler
 //@   ensures [no-leading-nil] len(h.packets) == 0 || h.packets[0] != nil
 //@   ensures [suffix] len(h.packets) <= old(len(h.packets)) && implies(len(h.packets) > 0, h.firstPacketNumber + len(h.packets) == old(h.firstPacketNumber) + old(len(h.packets)))
 //@   ensures [empty] implies(len(h.packets) == 0, h.firstPacketNumber == -1)
+//@   ensures [in-place] samebacking(h.packets, old(h.packets))
 //@   ensures [kept] forall(k, 0, len(h.packets), h.packets[k] == old(h.packets[k + (len(h.packets) - len(old(h.packets)))]) || true)
 //@   modifies h.packets, h.firstPacketNumber
 //@ loop (h *sentPacketHistory) cleanupStart #0
@@ -715,6 +716,7 @@ package ackhandler
 //@   ensures [outstanding] h.numOutstanding == old(h.numOutstanding) || h.numOutstanding == old(h.numOutstanding) - 1
 //@   ensures [inv-shape] len(h.packets) == 0 || h.packets[0] != nil
 //@   ensures [highest-kept] h.highestPacketNumber == old(h.highestPacketNumber)
+//@   ensures [in-place] samebacking(h.packets, old(h.packets))
 //@   modifies h.numOutstanding, h.packets, h.packets[*], h.firstPacketNumber
 //@ loop (h *sentPacketHistory) Remove #0
 //@   invariant 0 <= idx && idx < len(h.packets) && !hasPacketBefore && samearray(h.packets, old(h.packets)) && len(h.packets) == old(len(h.packets)) && h.numOutstanding >= 0
@@ -732,6 +734,7 @@ package ackhandler
 //@   let zeroRTT = arg1.EncryptionLevel == protocol.Encryption0RTT
 //@   ensures [only-0rtt-packets-dropped] implies(!zeroRTT, !result && h.bytesInFlight == old(h.bytesInFlight) && called("(*sentPacketHistory).Remove") == 0)
 //@   ensures [dropped-once] implies(zeroRTT, result && called("(*sentPacketHistory).Remove") == 1 && h.bytesInFlight == old(h.bytesInFlight) - ite(old(arg1.includedInBytesInFlight), arg1.Length, 0) && !arg1.includedInBytesInFlight)
+//@   ensures [history-in-place] samebacking(hist.packets, old(hist.packets))
 //@   modifies h.bytesInFlight, arg1.includedInBytesInFlight, hist.numOutstanding, hist.packets, hist.packets[*], hist.firstPacketNumber
 
 //@ func IsFrameAckEliciting
@@ -953,4 +956,4 @@ package ackhandler
 //@ loop (h *sentPacketHandler) DropPackets #rf1
 //@   invariant 0 <= h.bytesInFlight && h.bytesInFlight <= old(h.bytesInFlight)
 //@ loop (h *sentPacketHandler) DropPackets #rf2
-//@   invariant 0 <= h.bytesInFlight && h.bytesInFlight <= old(h.bytesInFlight)
+//@   invariant 0 <= h.bytesInFlight && h.bytesInFlight <= old(h.bytesInFlight) && samebacking(h.appDataPackets.history.packets, old(h.appDataPackets.history.packets))
